@@ -23,7 +23,10 @@ Leaves == {
   [t |-> "model", home |-> H("M", <<"Outer", "Mid", "Deep">>), fields |-> << [name |-> "x", v |-> P("int:5"), dflt |-> P("none")] >>]
 }
 Seqs == {[t |-> "seq", kind |-> k, items |-> it] : k \in {"list", "tuple"}, it \in {<<>>} \cup {<<a>> : a \in Leaves} \cup {<<P("int:5"), P("int:6")>>}}
-Members == Leaves \cup Seqs
+\* dict-valued members: str keys, and keys that are objects needing an import (a QName, an enum member)
+KeyLeaves == {P("str:quote'\"\\n"), CHOOSE l \in Leaves : l.t = "obj" /\ l.tag = "qname", CHOOSE l \in Leaves : l.t = "enum" /\ l.home.path = <<"Color">>}
+Maps == {[t |-> "map", items |-> <<>>]} \cup {[t |-> "map", items |-> << <<k, P("int:5")>> >>] : k \in KeyLeaves}
+Members == Leaves \cup Seqs \cup Maps
 \* c: a field whose default FACTORY yields a non-empty list - an empty (falsy) value is NOT its default
 FactoryDefault == [t |-> "seq", kind |-> "list", items |-> <<P("int:5"), P("int:6")>>]
 CValues == {FactoryDefault, [t |-> "seq", kind |-> "list", items |-> <<>>], [t |-> "seq", kind |-> "list", items |-> <<P("int:5")>>], P("none")}
@@ -41,6 +44,7 @@ IsTuple(x) == x.t = "seq" /\ x.kind = "tuple"
 IsPyDate(x) == x.t = "obj" /\ x.text[1] # x.home.path[1]
 RECURSIVE HasTuple(_)
 HasTuple(x) == IsTuple(x) \/ (x.t = "seq" /\ \E i \in DOMAIN x.items : HasTuple(x.items[i]))
+                          \/ (x.t = "map" /\ \E i \in DOMAIN x.items : HasTuple(x.items[i][1]) \/ HasTuple(x.items[i][2]))
                           \/ (x.t = "model" /\ \E i \in DOMAIN x.fields : HasTuple(x.fields[i].v))
 RECURSIVE HasNestedEnum(_)
 HasNestedEnum(x) == IsNestedEnum(x) \/ (x.t = "seq" /\ \E i \in DOMAIN x.items : HasNestedEnum(x.items[i]))
